@@ -28,13 +28,14 @@ META = {
              "source text twice gives identical results",
     "technique": "CrossHair symbolic execution of whole assemblies from symbolic module states (Deferred.next_instance_id any n >= 1, "
                  "try_compute.depth any k >= 0) and with symbolic program values; z3 decides state restoration and result equality",
-    "bounds": "14 step templates (valid, failing at parse/compile/link time, critical, cyclic, crashing) with all integer values; histories of "
+    "bounds": "26 step templates (valid, failing at parse/compile/link time, critical, cyclic, crashing) with all integer values; histories of "
               "length 2 over a 9-program catalogue (thorough: all 81 ordered pairs; quick: 25 per probe, realised) before a probe with a symbolic value; next_instance_id: every "
               "n >= 1; depth: every k >= 0",
-    "outside": ["hash randomisation (PYTHONHASHSEED) is a property of process start-up, not of any function that can be executed symbolically; "
-                "pdpy11 iterates only lists and insertion-ordered dicts (no set iteration, no hash() use -- by reading), stated as an argument, "
-                "not a verdict", "histories longer than 2 are covered by the induction (1)+(2), not enumerated"],
-    "structure": "step templates; probe programs; history pairs",
+    "outside": ["hash randomisation (PYTHONHASHSEED) is a property of process start-up, not of any function that can be executed symbolically: "
+                "covered only by a concrete side check -- the twin witness of every step/* and emit-order/* obligation is replayed in 8 fresh "
+                "processes with PYTHONHASHSEED=0..7 and every observation (bytes, diagnostics with positions, files written in order) must agree; "
+                "sampling, not a verdict", "histories longer than 2 are covered by the induction (1)+(2), not enumerated"],
+    "structure": "26 step templates (two of them including files); 6 probe programs; history pairs; the output charset switched between two assemblies of one process; order of the files written by emit_files",
     "stubs": [],
 }
 
